@@ -57,7 +57,7 @@ CHECKS["C04"] = dict(
          "a finite, explicitly defined window (ALL registers in every position, all index forms, all operand kinds and counts 0-3, values "
          "around every field boundary; 44k lists per mnemonic) the model returns an error value or exactly the ISA encoding of the "
          "statement as written (kernel-checked exhaustive sweep); C04_guards. Registers, kinds and counts are finite and swept "
-         "exhaustively; values are covered for all of Z; that accepted in-range operands get the table's encoding is C01.",
+         "exhaustively; values are covered for all of Z; that accepted in-range operands get the table's encoding is C01. IN A PROGRAM: C04_no_error_is_dropped / C04_every_instruction_encoded - in a build pass 2 accepts, every item of every segment was accepted and every instruction was encoded by the encoder (so the range theorem holds of each): no image contains a statement the ISA cannot encode.",
     note=BASE + " The window theorem is bounded (the bound is in its statement); the range theorem is not.",
     tech="Coq proof (goal-directed case analysis over all operations for the value ranges; finite kernel-swept window for registers, "
          "kinds and counts) + differential correspondence/oracle sweep",
@@ -100,7 +100,7 @@ CHECKS["C06"] = dict(
     text="Theorem C06_data (Props/C06.v): for every data directive and every operand list (unbounded, induction) the bytes the model emits "
          "are exactly the specification's (Spec/DataSpec.v: operands in order, 1/2/4/8-byte little-endian two's complement, strings as "
          "bytes for .db only), failing exactly when a value does not fit [-2^(w-1), 2^w-1], has no value, or a string is in .dw/.dd/.dq; "
-         "C06_flash_padding / eeprom_no_padding / wrong_segment / reserve_eeprom for the segment rules." + PROG,
+         "C06_flash_padding / eeprom_no_padding / wrong_segment / reserve_eeprom for the segment rules. IN A PROGRAM: C06_in_program - the bytes of a data directive, its operands evaluated at the directive's own location, stand in the flash image at byte 2a resp. in the EEPROM image at byte a (composition with the C02 layout theorem)." + PROG,
     note=BASE + " Search oracle: independent reference encoder in vlib/c06.py.",
     tech="Coq proof (induction on operand lists, width lemmas by lia) + differential correspondence + reference-encoder oracle", ref="3 C06")
 CHECKS["C10"] = dict(
@@ -108,7 +108,7 @@ CHECKS["C10"] = dict(
          "(hence every reference evaluates the same in any case); an unbound name is an error value, never a default; a duplicate label "
          "fails at the second definition; a label entered by pass 1 has the position of the following item and persists (fold invariant) "
          "- pass 2 evaluates references only afterwards, so forward references resolve; after .set every reference sees exactly that "
-         "value (first definition and re-assignment); .def/.undef scope; an alias operand is the register operand for the encoder. C10_equ_stored / C10_equ_evaluated_at_use (an .equ keeps its expression; every reference evaluates it afresh where and when it stands); C10_label_before_directive (a label in front of any directive is entered before the directive acts)." + PROG,
+         "value (first definition and re-assignment); .def/.undef scope; an alias operand is the register operand for the encoder. C10_equ_stored / C10_equ_evaluated_at_use (an .equ keeps its expression; every reference evaluates it afresh where and when it stands); C10_label_before_directive (a label in front of any directive is entered before the directive acts). C10_def_keeps_others / C10_undef_keeps_others (aliases are independent of each other), C10_symbol_directives_in_every_segment." + PROG,
     note=BASE + " Domain: names unique across the four kinds modulo case (cross-kind clashes resolve by a fixed priority without error; "
          "the property demands failure for duplicate labels only). Search oracle: reference resolver in vlib/c10.py + deletion/duplication mutants.",
     tech="Coq proof (fold invariants, case lemmas) + differential correspondence + reference-resolver oracle", ref="3 C10")
@@ -125,7 +125,7 @@ CHECKS["C13"] = dict(
     text="Theorem C13_gate (Props/C13.v): for EVERY set of feature flags (all 2^16, not only the 54 rows), every operation and operand "
          "list, the gate of pass 2 passes the instruction iff no flag the device carries removes that form according to the flag "
          "documentation (Spec/GateSpec.v); C13_same_code: the device enters the encoder only through the reduced-core flag and only for "
-         "lds/sts - every other instruction encodes identically under any device; C13_pass2_rejects." + PROG,
+         "lds/sts - every other instruction encodes identically under any device; C13_pass2_rejects. IN A PROGRAM: C13_every_instruction_gated - every instruction of a build pass 2 accepts passed the gate of THE device of the program, wherever the .device line stands." + PROG,
     note=BASE + " Search: 54 devices x 111 instruction forms exhaustively.",
     tech="Coq proof (case analysis over operations and flags) + regenerated device table + exhaustive device x form runs", ref="3 C13")
 CHECKS["C14"] = dict(
